@@ -305,7 +305,7 @@ impl<K> Deques<K> {
 
 //@@ FN file=src/unsync/deques.rs owner=Deques name=clear tags=C07,C11
     pub(crate) fn clear(&mut self)
-        ensures final(self).window@.len() == 0, final(self).probation@.len() == 0, final(self).protected@.len() == 0, final(self).write_order@.len() == 0, //@ [C07,C11,C01]
+        ensures final(self).window@.len() == 0, final(self).probation@.len() == 0, final(self).protected@.len() == 0, final(self).write_order@.len() == 0, //@ [C07,C11,C01,C03,C05]
             final(self).regions_ok() //@ [C08]
     {
         self.window = Deque::new(CacheRegion::Window);
